@@ -119,6 +119,42 @@ def unlines : List Str → Str
 /-- the character content of the written file (gzip / UTF-8: identity). -/
 def renderFile (compatible : Bool) (es : List TEvent) : Str := unlines (renderLines compatible es)
 
+/-! ### The writer with `delimiter=` and `columns=` given (io.py:67-127)
+
+`renderFile` above is the writer at its default `delimiter="\t"`,
+`columns=("cues", "outcomes")`; the definitions below take both parameters.
+`renderFileWith_default` / `renderFileWith_legacy_explicit` (PyndlProps/C07)
+state that they agree with `renderFile` at the defaults and for the legacy
+triple given explicitly together with `compatible=True` (the branch of
+io.py:106 that does not warn). -/
+
+/-- `delimiter.join(xs)` for a delimiter *string*. -/
+def joinStr (sep : Str) : List Str → Str
+  | [] => []
+  | [x] => x
+  | x :: y :: r => x ++ sep ++ joinStr sep (y :: r)
+
+/-- `columns=("cues", "outcomes")`, the default of `events_to_file`. -/
+def defaultColumns : List Str := ["cues".toList, "outcomes".toList]
+
+/-- `legacy_columns = ('Cues', 'Outcomes', 'Frequency')` (io.py:105). -/
+def legacyColumns : List Str := ["Cues".toList, "Outcomes".toList, "Frequency".toList]
+
+/-- the header line (io.py:105-110): with `compatible` and `columns` different
+    from the legacy triple the columns are replaced by the legacy triple (and a
+    warning is issued, not modelled); then `delimiter.join(columns)`. -/
+def renderHeaderWith (delim : Str) (columns : List Str) (compatible : Bool) : Str :=
+  joinStr delim (if compatible && columns != legacyColumns then legacyColumns else columns)
+
+/-- one body line (io.py:113-124) without its `\n` for a given delimiter. -/
+def renderEventWith (delim : Str) (compatible : Bool) (e : TEvent) : Str :=
+  joinWith US e.cues ++ delim ++ joinWith US e.outcomes ++ (if compatible then delim ++ ['1'] else [])
+
+/-- the character content of the file written by
+    `events_to_file(events, path, delimiter=delim, columns=columns, compatible=compatible)`. -/
+def renderFileWith (delim : Str) (columns : List Str) (compatible : Bool) (es : List TEvent) : Str :=
+  unlines (renderHeaderWith delim columns compatible :: es.map (renderEventWith delim compatible))
+
 /-- `events_from_list` (io.py:156-178) followed by the join of
     `events_to_file`: an event given as two joined strings is split on `_`. -/
 def eventOfStrings (cues outcomes : Str) : TEvent := ⟨splitOn US cues, splitOn US outcomes⟩
